@@ -246,8 +246,8 @@ Definition resume (e : sentry) (s : sid) (c : cmd) : option cstate :=
 (* ---- the connection script --------------------------------------------- *)
 
 (* what a handler invocation does: return nil after KeepAlive(), return nil,
-   return an error, return KeepOpen() *)
-Inductive hret := HKeepAlive | HDone | HErr | HKeepOpen.
+   return an error, return KeepOpen(), or PANIC (Go panics are an explicit outcome) *)
+Inductive hret := HKeepAlive | HDone | HErr | HKeepOpen | HPanic.
 
 (* one handler invocation's continuation: its return, the result of reading
    the follow-on command integer (None = EOF / error), and the server tables
@@ -292,7 +292,16 @@ Inductive cend :=
 | EClosedOk      (* conn.Close(), return nil *)
 | EClosedErr     (* conn.Close(), return error *)
 | EOpen          (* handler took the connection (KeepOpen): not closed, return nil *)
-| EPending.      (* the script ran out: the handler has not returned *)
+| EPending       (* the script ran out: the handler has not returned *)
+| EPanic.        (* the handler panicked: ServeConn has no recover, the panic unwinds it (only its
+                    deferred cancel() runs, the connection is NOT closed by ServeConn) and reaches the
+                    caller -- in Server.Serve the per-connection goroutine's deferred recover(), which
+                    logs and closes the connection *)
+
+(* Server.Serve's per-connection goroutine: is the connection closed once ServeConn is over?
+   ServeConn closes it itself on every return except KeepOpen; after a panic Serve's recover does. *)
+Definition closed_under_serve (e : cend) : bool :=
+  match e with EClosedOk | EClosedErr | EPanic => true | EOpen | EPending => false end.
 
 Definition dispatch_cmd (d : dispatch) : cmd :=
   match d with DInvoke i => i_cmd i | DRefuse c _ => c end.
@@ -322,6 +331,7 @@ Fixpoint auth_loop (srv : server) (peer : addr) (cs : cstate) (c : cmd) (steps :
         | st :: rest =>
             match st_ret st with
             | HErr => ([inv], EClosedErr)
+            | HPanic => ([inv], EPanic)
             | HKeepOpen => ([inv], EOpen)
             | HDone => ([inv], EClosedOk)
             | HKeepAlive =>
@@ -347,8 +357,9 @@ Definition raw_path (srv : server) (peer : addr) (c : cmd) (steps : list step) :
         | st :: _ =>
             match st_ret st with
             | HErr => ([inv], EClosedErr)
+            | HPanic => ([inv], EPanic)
             | HKeepOpen => ([inv], EOpen)
-            | _ => ([inv], EClosedOk)
+            | HKeepAlive | HDone => ([inv], EClosedOk)
             end
         end
   end.
